@@ -101,6 +101,11 @@ def _merge():
 
 _merge()
 
+# memory-heavy families: fewer harnesses at a time, larger per-harness memory limit
+if 'C03' in CHECKS:
+    CHECKS['C03']['jobs'] = {'quick': 6, 'thorough': 3}
+    CHECKS['C03']['kani'] = [dict(_s, mem_gb=max(_s.get('mem_gb', 14), 20)) for _s in CHECKS['C03'].get('kani', [])]
+
 # ---------------------------------------------------------------- quick-tier budget
 # Quick = the check run on every change (target: a few minutes per property on 16 cores). Harnesses matching these
 # patterns stay registered but run in the thorough tier only (converses, getter agreement, heavier shapes).
